@@ -69,6 +69,9 @@ func (c04) Gen(rng *rand.Rand, tier string, k int) *Case {
 			c.Shape = ShapeLateStart // the series opens with bars that have no quote yet
 		}
 	}
+	if rng.Intn(12) == 0 {
+		c.Shape = ShapeNaNBar // one bar without a number: whatever it does to later values, it must not pull later inputs into earlier ones
+	}
 	if rng.Intn(10) == 0 {
 		c.Variant = 3 // every non-period parameter zero: causality must not depend on them
 	}
